@@ -1321,7 +1321,7 @@ def gen_C13(rng, tier, dist):
     layouts = [("none", 0), ("none", 1), ("aac-lc", 0), ("aac-lc", 1), ("opus", 1), ("opus", 0)]
     for hi in range(nh):
         audio, fast = layouts[hi % len(layouts)]
-        big = fast == 0 or hi % 3 == 0
+        big = (fast == 0 or hi % 3 == 0) and hi < 8          # a handful of histories: each is run under ~2000 sink policies
         cfg, ops, info = gen_history(rng, dist, codec=rng.choice(VCODECS), audio=audio, fast=fast, nv=rng.randrange(1, 4),
                                      na=rng.randrange(1, 3) if audio != "none" else 0, finish=None, md=dict(md=0) if hi % 2 else None,
                                      start=rng.choice([0.0, 1.0]) if big else None)
@@ -1329,7 +1329,7 @@ def gen_C13(rng, tier, dist):
             # small samples followed by one of 8 KiB / 64 KiB and more: a writer that batches small writes must still
             # deliver the bytes in file order when the sink shortens or interrupts the write in front of the large one
             d = delta_frame(rng, info["codec"])
-            n = rng.choice([8192, 8192 + 7, 9000] if tier == "quick" else [8192, 8192 + 7, 9000, 65536 + 3])
+            n = rng.choice([8192, 8192 + 7, 9000]) if (tier == "quick" or hi != 6) else 65536 + 3
             ops = ops + ["wv %s %s 0" % (f64bits(400.0), hx((d + bytes(rng.randrange(1, 256) for _ in range(64)) * (n // 64 + 1))[:n]))]
             dist["c13_large_sample_after_small=%d" % n] += 1
         fin = rng.choice(["fin", "fins", "finish", "finishs", "flush"]) if hi >= 4 else ["fins", "fin", "finishs", "fins"][hi]
